@@ -212,10 +212,24 @@ class NumpyProxy:
             return bool(x)
         return _np.all(x, *a, **k)
 
-    def isclose(self, a, b, *args, **k):
-        if _is_sym(a) or _is_sym(b):
-            return sx.eq(a, b)
-        return _np.isclose(a, b, *args, **k)
+    def isclose(self, a, b, rtol=1e-05, atol=1e-08, equal_nan=False):
+        # numpy's documented definition: |a - b| <= atol + rtol * |b| (element-wise, default tolerances included)
+        if not _has_sym((a, b)):
+            return _np.isclose(a, b, rtol=rtol, atol=atol, equal_nan=equal_nan)
+        from fractions import Fraction as _F
+        rt, at = _F(str(rtol)), _F(str(atol))
+
+        def one(u, v):
+            if isinstance(u, sx.NaNValue) or isinstance(v, sx.NaNValue):
+                return False
+            return abs(u - v) <= at + rt * abs(v)
+        if isinstance(a, (_np.ndarray, list, tuple)) or isinstance(b, (_np.ndarray, list, tuple)):
+            xa, xb = _np.asarray(a, dtype=object), _np.asarray(b, dtype=object)
+            br = _np.broadcast(xa, xb)
+            out = _np.empty(br.shape, dtype=object)
+            out.flat = [one(u, v) for u, v in br]
+            return out
+        return one(a, b)
 
     def asarray(self, x, *a, **k):
         if _is_sym(x):
